@@ -14,8 +14,8 @@ Definition valid_scheme (u : purl) : bool :=
 
 (** address list: socket path (unix) or host:port of the URL, then every addr parameter in order *)
 Definition addrs_of (u : purl) : list bytes :=
-  (if is_unix_scheme (scheme u) then [trim_space e (path u)] else [snd (parse_addr e (host u) (host u))])
-  ++ map (fun a => snd (parse_addr e (host u) a)) (q_all (query u) (b "addr")).
+  (if is_unix_scheme (scheme u) then [trim_space e (path u)] else [snd (parse_addr e (hostname u) (host u))])
+  ++ map (fun a => snd (parse_addr e (hostname u) a)) (q_all (query u) (b "addr")).
 
 (** skip_verify: bare parameter or empty value = true, otherwise strconv.ParseBool *)
 Definition skip_of (u : purl) : bool :=
@@ -27,7 +27,7 @@ Definition skip_of (u : purl) : bool :=
   else false.
 
 Definition tls_of (u : purl) : option tls_cfg :=
-  if is_tls_scheme (scheme u) then Some (mkTls (fst (parse_addr e (host u) (host u))) (skip_of u)) else None.
+  if is_tls_scheme (scheme u) then Some (mkTls (fst (parse_addr e (hostname u) (host u))) (skip_of u)) else None.
 
 Definition user_of (u : purl) : bytes := match user u with Some (n, _) => n | None => [] end.
 Definition pass_of (u : purl) : bytes := match user u with Some (_, Some p) => p | _ => [] end.
@@ -117,7 +117,7 @@ Proof.
 Qed.
 
 Lemma stage_skip_spec u :
-  stage_skip u (if is_tls_scheme (scheme u) then Some (mkTls (fst (parse_addr e (host u) (host u))) false) else None) =
+  stage_skip u (if is_tls_scheme (scheme u) then Some (mkTls (fst (parse_addr e (hostname u) (host u))) false) else None) =
   if bad_skip u then Err ESkipVerify else Ok (tls_of u).
 Proof.
   unfold stage_skip, bad_skip, tls_of, skip_of. destruct (is_tls_scheme (scheme u)); cbn [andb]; [|reflexivity].
@@ -175,9 +175,9 @@ Theorem query_fields_own e u u' o o' :
   (q_all (query u) (b "client_name") = q_all (query u') (b "client_name") -> client_name o = client_name o') /\
   (q_all (query u) (b "master_set") = q_all (query u') (b "master_set") -> master_set o = master_set o') /\
   (user u = user u' -> username o = username o' /\ password o = password o') /\
-  (scheme u = scheme u' -> host u = host u' ->
+  (scheme u = scheme u' -> host u = host u' -> hostname u = hostname u' ->
    q_all (query u) (b "skip_verify") = q_all (query u') (b "skip_verify") -> tls o = tls o') /\
-  (scheme u = scheme u' -> host u = host u' -> path u = path u' ->
+  (scheme u = scheme u' -> host u = host u' -> hostname u = hostname u' -> path u = path u' ->
    q_all (query u) (b "addr") = q_all (query u') (b "addr") -> init_address o = init_address o') /\
   (scheme u = scheme u' -> path u = path u' ->
    q_all (query u) (b "db") = q_all (query u') (b "db") -> select_db o = select_db o').
@@ -198,8 +198,8 @@ Proof.
   - intro E. now destruct (q_has_get_of_all _ _ _ E) as [_ ->].
   - intro E. now destruct (q_has_get_of_all _ _ _ E) as [_ ->].
   - unfold user_of, pass_of. intro E. rewrite E. split; reflexivity.
-  - intros Es Eh E. unfold tls_of, skip_of. destruct (q_has_get_of_all _ _ _ E) as [-> ->]. now rewrite Es, Eh.
-  - intros Es Eh Ep E. unfold addrs_of. now rewrite Es, Eh, Ep, E.
+  - intros Es Eh En E. unfold tls_of, skip_of. destruct (q_has_get_of_all _ _ _ E) as [-> ->]. now rewrite Es, Eh, En.
+  - intros Es Eh En Ep E. unfold addrs_of. now rewrite Es, Eh, En, Ep, E.
   - intros Es Ep E. unfold db_of. destruct (q_has_get_of_all _ _ _ E) as [-> ->]. now rewrite Es, Ep.
 Qed.
 
@@ -226,9 +226,9 @@ Theorem mapping_parts e u o : parse_url e u = Ok o ->
   unix_dial o = is_unix_scheme (scheme u) /\
   (* address or socket path, then the addr parameters in order *)
   init_address o =
-    (if is_unix_scheme (scheme u) then [trim_space e (path u)] else [snd (parse_addr e (host u) (host u))])
-    ++ map (fun a => snd (parse_addr e (host u) a)) (q_all (query u) (b "addr")) /\
-  (forall t, tls o = Some t -> server_name t = fst (parse_addr e (host u) (host u))) /\
+    (if is_unix_scheme (scheme u) then [trim_space e (path u)] else [snd (parse_addr e (hostname u) (host u))])
+    ++ map (fun a => snd (parse_addr e (hostname u) a)) (q_all (query u) (b "addr")) /\
+  (forall t, tls o = Some t -> server_name t = fst (parse_addr e (hostname u) (host u))) /\
   (* database: db parameter, else /<n> path (non-unix), else 0 *)
   (q_has (query u) (b "db") = true -> parse_int10 (q_get (query u) (b "db")) = Some (select_db o)) /\
   (q_has (query u) (b "db") = false -> is_unix_scheme (scheme u) = false ->
@@ -324,7 +324,7 @@ Proof. intros H. unfold parse_addr. rewrite H. destruct uhost; destruct p; refle
 
 Theorem addr_entries e u o : parse_url e u = Ok o ->
   forall i a, nth_error (q_all (query u) (b "addr")) i = Some a ->
-  nth_error (init_address o) (S i) = Some (snd (parse_addr e (host u) a)) /\
+  nth_error (init_address o) (S i) = Some (snd (parse_addr e (hostname u) a)) /\
   List.length (init_address o) = S (List.length (q_all (query u) (b "addr"))).
 Proof.
   intros H i a Hi. destruct (mapping_parts e u o H) as (_ & _ & _ & _ & Ha & _). rewrite Ha.
@@ -332,16 +332,21 @@ Proof.
     erewrite map_nth_error by exact Hi; reflexivity.
 Qed.
 
-(** the two known deviations from "an entry without a host takes the URL's host, an entry without a port takes 6379":
-    (1) an entry WITHOUT A PORT ("h3") is rejected as a whole by net.SplitHostPort, so its host is lost too;
-    (2) the default host is u.Host as it stands, i.e. with the URL's own port or brackets *)
-Lemma addr_portless_loses_host e uhost a : split_host_port e a = ([], []) ->
-  snd (parse_addr e uhost a) = join_host_port (match uhost with [] => b "localhost" | _ => uhost end) (b "6379").
-Proof. intro H. now rewrite (addr_entry_hostless e uhost a []). Qed.
-
-Lemma addr_default_host_verbatim e uhost a p : split_host_port e a = ([], p) -> p <> [] -> contains_byte 58 uhost = true ->
-  snd (parse_addr e uhost a) = (91 :: uhost) ++ (93 :: 58 :: p).
+(** the documented rule for an entry with a port: its own host, or the URL's host NAME (localhost if the URL has none) *)
+Theorem addr_rule e u a h p : split_host_port e a = (h, p) -> p <> [] ->
+  snd (parse_addr e (hostname u) a) =
+  join_host_port (match h with [] => match hostname u with [] => b "localhost" | n => n end | _ => h end) p.
 Proof.
-  intros H Hp Hc. rewrite (addr_entry_hostless e uhost a p H). destruct uhost; [discriminate|]. destruct p; [contradiction|].
-  unfold join_host_port. now rewrite Hc.
+  intros H Hp. destruct h as [|c r].
+  - rewrite (addr_entry_hostless e (hostname u) a p H). destruct p; [contradiction|]. now destruct (hostname u).
+  - apply (addr_entry_hosted e (hostname u) a (c :: r) p H); [discriminate|exact Hp].
 Qed.
+
+(** the original code used u.Host verbatim as the default host: with a port in the URL the result was malformed *)
+Lemma addr_before_fix_malformed :
+  let e := mkEnv (fun s => if bytes_eqb s (b ":7001") then ([], b "7001") else ([], [])) (fun _ => None) (fun s => s) in
+  snd (parse_addr e (b "h1:7000") (b ":7001")) = b "[h1:7000]:7001" /\   (* default host = u.Host *)
+  snd (parse_addr e (b "h1") (b ":7001")) = b "h1:7001" /\               (* default host = u.Hostname() *)
+  snd (parse_addr e (b "[::1]") (b "[::1]")) = b "[[::1]]:6379" /\      (* redis://[::1] before *)
+  snd (parse_addr e (b "::1") (b "[::1]")) = b "[::1]:6379".            (* … and after *)
+Proof. vm_compute. repeat split; reflexivity. Qed.
